@@ -7,6 +7,7 @@ mod split;
 mod chash;
 mod sync;
 mod mdline;
+mod verify;
 
 fn dispatch(op: &str, arg: &Value) -> Result<Value, String> {
     match op {
@@ -14,13 +15,43 @@ fn dispatch(op: &str, arg: &Value) -> Result<Value, String> {
         "streamread" => split::op_streamread(arg),
         "chash" => chash::op_chash(arg),
         "sync" => sync::op_sync(arg),
+        "verify" => verify::op_verify(arg),
+        "age" => verify::op_age(arg),
+        "duration" => verify::op_duration(arg),
+        "listgroups" => verify::op_listgroups(arg),
         "mdline" => mdline::op_mdline(arg),
         "mdparse" => mdline::op_mdparse(arg),
         _ => Err(format!("unknown op {}", op)),
     }
 }
 
+// ---- capturing logger: "reported at error level" must be observable ----
+struct CaptureLogger;
+static LOGGER: CaptureLogger = CaptureLogger;
+static LOGS: std::sync::Mutex<Vec<(log::Level, String)>> = std::sync::Mutex::new(Vec::new());
+
+impl log::Log for CaptureLogger {
+    fn enabled(&self, _m: &log::Metadata) -> bool { true }
+    fn log(&self, record: &log::Record) {
+        if record.target().starts_with("vsb") {
+            LOGS.lock().unwrap().push((record.level(), record.args().to_string()));
+        }
+    }
+    fn flush(&self) {}
+}
+
+pub fn take_logs() -> Vec<(log::Level, String)> {
+    std::mem::take(&mut *LOGS.lock().unwrap())
+}
+
+pub fn logs_json(logs: &[(log::Level, String)]) -> Value {
+    Value::Array(logs.iter().filter(|(l, _)| *l <= log::Level::Warn)
+        .map(|(l, m)| json!([if *l == log::Level::Error { "E" } else { "W" }, m])).collect())
+}
+
 pub fn main_loop() {
+    let _ = log::set_logger(&LOGGER);
+    log::set_max_level(log::LevelFilter::Info);
     // Panics are reported as results, not as process death.
     panic::set_hook(Box::new(|_| {}));
     let stdin = io::stdin();
